@@ -4,6 +4,7 @@ import Driver.KkcOps
 import Chokan.Model.Server
 import Chokan.Gen.Server
 import Chokan.Gen.KanaAlpha
+import Chokan.Model.Fine
 
 namespace Driver
 open Chokan Chokan.Server Chokan.Kkc Chokan.Dic
@@ -73,7 +74,7 @@ def serverOps (st : Option State) (op : String) (arg : String) : Option (Option 
     | _, _, _ => some (none, "panic")
   | _ =>
     match st with
-    | none => if op.startsWith "s" && ["sconv", "stankan", "sconfirm", "sregister", "sapply", "sapplyall", "ssave", "srestart", "sdump"].contains op
+    | none => if op.startsWith "s" && ["sconv", "stankan", "sconfirm", "sregister", "sapply", "sapplyall", "ssave", "srestart", "sdump", "sfine-updater-split"].contains op
               then some (none, "no-server") else none
     | some s =>
       match op with
@@ -113,6 +114,39 @@ def serverOps (st : Option State) (op : String) (arg : String) : Option (Option 
         match restart cfg s with
         | some s' => some (some s', "ok")
         | none => some (st, "panic")
+      | "sfine-updater-split" =>
+        -- the interleaving model with data, from the current server state: a registration is acknowledged, the updater
+        -- records it in the user dictionary (first critical section) and is then held up before the dictionary lock;
+        -- a conversion runs in between, the updater finishes, a second conversion runs
+        let hd := (g 0).splitOn " "
+        let kind := match hd.headD "" with | "Guess" => RegKind.guess | "ProperNoun" => .properNoun | _ => .commonNoun
+        let reading := parseCps (" ".intercalate (hd.drop 1))
+        let word := parseCps (g 1)
+        let probe := parseCps (g 2)
+        let convPath := ((Chokan.Conc.convertingPaths Gen.Server.handlerPaths).headD [])
+        let regPath := ((Chokan.Conc.pathsOf "RegisterWord" Gen.Server.handlerPaths).headD [])
+        let reqs : List (List Gen.Server.Ev × Chokan.Fine.Req) :=
+          [(regPath, .register kind reading word), (convPath, .conv .normal probe), (convPath, .conv .normal probe)]
+        let d0 := Chokan.Fine.finit Gen.Server.chanUnbounded (fun _ => 0) reqs Gen.Server.taskPaths s
+        -- the updater is the loop that receives entries; its iteration restarts on the path on which every block is entered
+        let ui := (Gen.Server.taskMain.findIdx fun p => p.contains (.recv .entry))
+        let u := reqs.length + ui
+        let k := ((Gen.Server.taskPaths.getD ui []).length - 1)
+        let runThread (d : Chokan.Fine.FSt) (i : Nat) (stop : List Gen.Server.Ev → Bool) : Chokan.Fine.FSt :=
+          (List.range 40).foldl (fun d _ =>
+            match d.st.threads[i]? with
+            | some t => if stop t.rest || !(Chokan.Conc.enabled d.st t) then d else Chokan.Fine.fstep cfg d (i, k)
+            | none => d) d
+        let d1 := runThread d0 0 (·.isEmpty)
+        -- restart the loop, then run up to (not including) the acquisition of the dictionary lock
+        let d2 := runThread (Chokan.Fine.fstep cfg d1 (u, k)) u (fun r => r.head? == some (.acq .dictionary) || r.isEmpty)
+        let d3 := runThread d2 1 (·.isEmpty)
+        let d4 := runThread d3 u (·.isEmpty)
+        let d5 := runThread d4 2 (·.isEmpty)
+        let cands (d : Chokan.Fine.FSt) (i : Nat) : String :=
+          ",".intercalate (((d.locals[i]?.map (·.cands)).getD []).map fun c => dotted c.text)
+        some (some d5.data, s!"ok between_user={d3.data.userDict.length} between={cands d3 1} after={cands d5 2} " ++
+          s!"answered={(d5.locals.take 3).all (·.answered)}")
       | "sdump" => some (st, dumpState s)
       | _ => none
 
